@@ -32,8 +32,8 @@ def holds_object(r):
         if ty.startswith('&') or ty.startswith('*') or ty.startswith('{') or l['parts'].get('closures'):
             return False
         adts = l['parts']['adts']
-        if ty.startswith('impl ') or ty.startswith('dyn '):
-            return False  # opaque futures: whatever they own is audited in the body that defines them
+        if ty.startswith('impl ') or ty.startswith('dyn ') or 'dyn std::future::Future' in ty:
+            return False  # opaque (possibly boxed) futures: whatever they own is audited in the body that defines them
         if 'std::sync::MutexGuard' in adts:
             return False  # a guard borrows the slots, it owns no object
         if r.UNREADY in adts or r.OBJECT in adts or r.INNER in adts or r.POOL in adts:
@@ -103,6 +103,9 @@ def drop_site_audit(ctx, r, rule):
             if site[0] == 'replace':
                 # old deque replaced after `drain(..)` consumed all of it
                 drains = [x.idx for x, m in queue_calls(r, b, an) if m == 'drain']
+                # `new.append(&mut slots.vec)` moves every element out as well (the queue is the *argument* there)
+                drains += [x.idx for x in b.blocks if x.term.kind == 'call' and not x.cleanup and len(x.term.args) == 2 and
+                           any(n_.startswith('std::collections::VecDeque::') and n_.endswith('::append') for n_ in x.term.callee_names()) and receiver_is_field(an, x.term.args[1], r.SLOTS, r.QUEUE)]
                 ok = any(an.dominates(d, blk.idx) for d in drains)
                 ctx.ob(rule, 'queue storage replaced only after it was drained', ok, w,
                        'the idle queue is overwritten while it may still hold objects' if not ok else '', construct='queue-replace:' + b.name)
